@@ -40,6 +40,8 @@ type StoreParams struct {
 	AutoGC   bool  `json:"auto_gc,omitempty"`
 	AutoSave bool  `json:"auto_save,omitempty"`
 	Stray    int   `json:"stray,omitempty"` // unreferenced but valid blob files planted in blobs/
+	// ConcGC: GC operations of Ops run inside the concurrent part (otherwise they are left out there)
+	ConcGC bool `json:"conc_gc,omitempty"`
 	// file store options
 	ForceCAS     bool `json:"force_cas,omitempty"`
 	IgnoreNoName bool `json:"ignore_no_name,omitempty"`
@@ -65,7 +67,7 @@ func (p *storeProp) Rule() string {
 	case "C08":
 		return "scenario = history of Push/Tag/Untag/Delete/GC/SaveIndex on an OCI layout, with reopen (New, NewFromFS, NewFromTar) at drawn quiescent points and at the end; non-trivial = the layout held >=1 tag and >=2 blobs at a reopen; distinct = distinct (event-trace hash, final state)"
 	default:
-		return "scenario = history over an OCI layout with referrer chains, moved tags, tagged referrers, stray blob files, Delete of any descriptor (AutoGC on/off) and GC at any point, compared after every step with an executable garbage-collection model; non-trivial = a Delete or GC removed at least one node beyond the named one, or GC ran with garbage present; distinct = distinct (event-trace hash, final state)"
+		return "scenario = history over an OCI layout with referrer chains, moved tags, tagged referrers, stray blob files, Delete of any descriptor (AutoGC on/off) and GC at any point, compared after every step with an executable garbage-collection model; 10% are two tasks moving one tag at the same time, 12% run GC beside tasks that push a manifest with its children and tag it (porcupine check of the history against the same model, orders that pass a corner the statement leaves open are not judged); non-trivial = a Delete or GC removed at least one node beyond the named one, or GC ran with garbage present; distinct = distinct (event-trace hash, final state)"
 	}
 }
 
@@ -128,9 +130,109 @@ func (p *storeProp) genTagRace(r *Rand) *StoreParams {
 	return nil
 }
 
+// genGCRace: GC runs while other tasks push a manifest with its children and tag it (or move,
+// remove and delete tags). GC has to behave as one step among the others: whatever was
+// pushed and tagged is complete afterwards, whatever it removed was garbage at that step.
+func (p *storeProp) genGCRace(r *Rand) *StoreParams {
+	sp := &StoreParams{Kind: "oci", Tasks: r.Range(2, 3), AutoGC: r.Bool(), AutoSave: true, ConcGC: true}
+	sp.Graph = *GenGraph(r, GraphOpts{MaxNodes: 12, Referrers: true, OneDigest: true, NoTwins: true, SHA512: true})
+	g := sp.Graph.Build()
+	var manifs []int
+	for _, n := range g.Nodes {
+		if n.IsManif {
+			manifs = append(manifs, n.ID)
+		}
+	}
+	if len(manifs) == 0 {
+		return nil
+	}
+	sp.Stray = r.Range(0, 4)
+	late := map[int]bool{}
+	var closure func(n int)
+	closure = func(n int) {
+		if late[n] {
+			return
+		}
+		late[n] = true
+		for _, c := range g.Nodes[n].Succ {
+			closure(c)
+		}
+	}
+	targets := []int{pick(r, manifs)}
+	if sp.Tasks == 3 {
+		targets = append(targets, pick(r, manifs))
+	}
+	for _, t := range targets {
+		closure(t)
+	}
+	// before: part of the rest is stored, some of it tagged, some of it garbage
+	for i := range g.Nodes {
+		if !late[i] && r.Chance(0.8) {
+			sp.Prologue = append(sp.Prologue, SOp{Op: "push", Node: i})
+			if g.Nodes[i].IsManif && r.Chance(0.5) {
+				sp.Prologue = append(sp.Prologue, SOp{Op: "tag", Node: i, Ref: pick(r, storeRefs)})
+			}
+		}
+	}
+	// some of what is pushed late may be there already (and is garbage or not when GC starts)
+	for i := range g.Nodes {
+		if late[i] && r.Chance(0.2) {
+			sp.Prologue = append(sp.Prologue, SOp{Op: "push", Node: i})
+		}
+	}
+	sp.Ops = append(sp.Ops, SOp{Op: "gc", Task: 0})
+	if r.Chance(0.3) {
+		sp.Ops = append(sp.Ops, SOp{Op: "gc", Task: 0})
+	}
+	for ti, t := range targets {
+		task := ti + 1
+		var order []int
+		seen := map[int]bool{}
+		var walk func(n int)
+		walk = func(n int) {
+			if seen[n] {
+				return
+			}
+			seen[n] = true
+			for _, c := range g.Nodes[n].Succ {
+				walk(c)
+			}
+			order = append(order, n)
+		}
+		walk(t)
+		if r.Chance(0.3) { // parents first
+			for i, j := 0, len(order)-1; i < j; i, j = i+1, j-1 {
+				order[i], order[j] = order[j], order[i]
+			}
+		}
+		for _, n := range order {
+			sp.Ops = append(sp.Ops, SOp{Op: "push", Node: n, Task: task})
+			if n == t && r.Chance(0.5) {
+				sp.Ops = append(sp.Ops, SOp{Op: "tag", Node: t, Ref: pick(r, storeRefs), Task: task})
+			}
+		}
+		sp.Ops = append(sp.Ops, SOp{Op: "tag", Node: t, Ref: pick(r, storeRefs), Task: task})
+		switch r.Intn(4) {
+		case 0:
+			sp.Ops = append(sp.Ops, SOp{Op: "untag", Ref: pick(r, storeRefs), Task: task})
+		case 1:
+			sp.Ops = append(sp.Ops, SOp{Op: "delete", Node: r.Intn(len(g.Nodes)), Task: task})
+		}
+	}
+	if r.Chance(0.4) {
+		sp.Epilogue = append(sp.Epilogue, SOp{Op: "gc"})
+	}
+	return sp
+}
+
 func (p *storeProp) Gen(r *Rand, tier string, idx int) any {
 	if p.id == "C09" && r.Chance(0.1) {
 		if sp := p.genTagRace(r); sp != nil {
+			return sp
+		}
+	}
+	if p.id == "C09" && r.Chance(0.12) {
+		if sp := p.genGCRace(r); sp != nil {
 			return sp
 		}
 	}
@@ -1222,7 +1324,7 @@ func (sr *storeRun) concurrent() *Verdict {
 			simrt.Go(func() {
 				defer func() { done <- struct{}{} }()
 				for oi, op := range sp.Ops {
-					if op.Task != t || op.Op == "reopen" || !sr.supported(op) || op.Op == "gc" || op.Op == "gccancel" {
+					if op.Task != t || op.Op == "reopen" || !sr.supported(op) || (op.Op == "gc" && !sp.ConcGC) || op.Op == "gccancel" {
 						continue
 					}
 					if op.Op == "retag" {
@@ -1356,6 +1458,10 @@ func (sr *storeRun) porcupineModel(final *Snapshot) porcupine.Model {
 		Step: func(state, input, output interface{}) (bool, interface{}) {
 			m := state.(*SModel).Clone()
 			op := input.(SOp)
+			if m.Ambiguous != "" {
+				// a corner the statement leaves open was passed in this order: nothing after it is judged
+				return true, m
+			}
 			if op.Op == "readback" {
 				d := diffSnapshots(final, modelSnapshot(m), "store", "model", g, kind == "oci", false)
 				return d == "", m
@@ -1363,6 +1469,10 @@ func (sr *storeRun) porcupineModel(final *Snapshot) porcupine.Model {
 			got := output.(SRes)
 			before := m.present[op.Node]
 			exp := m.Apply(op)
+			if m.Ambiguous != "" {
+				sr.info.Probes["unjudged_corner_in_some_order"]++
+				return true, m
+			}
 			if op.Op == "push" && before && got.Err == "" {
 				// two overlapping pushes of the same content may both report success
 				return true, m
@@ -1387,7 +1497,13 @@ func (sr *storeRun) porcupineModel(final *Snapshot) porcupine.Model {
 			_ = exp.Err == "*" // refused-or-ignored operations change nothing either way
 			return true, m
 		},
-		Equal: func(a, b interface{}) bool { return a.(*SModel).Key() == b.(*SModel).Key() },
+		Equal: func(a, b interface{}) bool {
+			ma, mb := a.(*SModel), b.(*SModel)
+			if ma.Ambiguous != "" || mb.Ambiguous != "" {
+				return ma.Ambiguous != "" && mb.Ambiguous != "" // nothing is judged after either
+			}
+			return ma.Key() == mb.Key()
+		},
 		DescribeOperation: func(input, output interface{}) string {
 			return fmt.Sprintf("%s -> %s", input.(SOp), output.(SRes))
 		},
